@@ -59,6 +59,18 @@ Definition C07_chunked_eq_whole_full_statement : Prop :=
   let d := halo md xc yc in
   chunked key tie_up R M xc yc values img rch cch (fst d) (snd d) = whole key tie_up R M xc yc values img.
 
+(* ... and it is FALSE: the heuristic's result depends on the window (the implementation shows the same difference:
+   known finding heuristic-window-dependence) *)
+Example C07_chunked_neq_whole_witness : ~ C07_chunked_eq_whole_full_statement.
+Proof.
+  intros H.
+  specialize (H (metric_of_key key_euclid) (fun _ => false) (EFin 17) (EFin 8) hw_xc hw_yc [] hw_img [2; 1] [6] hw_md
+                eq_refl eq_refl).
+  cbv zeta in H. rewrite hw_halo in H. cbn [fst snd] in H.
+  apply (f_equal (fun g => cell_at g 2 4)) in H.
+  rewrite hw_chunked_cell, hw_whole_cell in H. discriminate.
+Qed.
+
 (* ---- non-vacuity ---- *)
 Example C07_halo_nonvacuous :
   depth (3 # 2) (1 # 1) (3 # 1) = (1, 2) /\ depth (2 # 1) (5 # 1) (1 # 1) = (2, 0) /\
